@@ -221,11 +221,22 @@ var vC20FreshPrograms = []string{
 	`(str (raw "abc"))`,
 	`(def arr [1 2 9001]) { arr[0:2] }`,
 	`(msgmap k: 9001)`,
+	// listings of Go-backed records (methodls, fieldls) read and then written in place: a later interpreter must get the real listing again
+	`(def m (methodls (snoopy cry:"w"))) (def was (aget m 0)) (aset m 0 "scribbled") (str was)`,
+	`(def fl (fieldls (weather type:"s"))) (def was (aget fl 0)) (aset fl 0 "scribbled") (aset fl 1 9001) (str was)`,
+	`(def m (methodls (vrec i:1))) (def n (len m)) (aset m (- n 1) 9001) (str [n (aget (methodls (vrec i:2)) (- n 1))])`,
+	`(def s (snoopy cry:"x")) (str (_method s GetCry:))`,
+	`(def r (vrec i:9001 p:(vleaf num:2))) (togo r) (str (_method r Self:))`,
+	`(_method (snoopy cry:"x") NoSuchMethod:)`,
 }
 
 func vC20RunFresh(k int, hole Sexp) string {
 	env := NewZlispSandbox()
 	env.StandardSetup()
+	env.AddFunction("methodls", GoMethodListFunction)
+	env.AddFunction("fieldls", GoFieldListFunction)
+	env.AddFunction("_method", CallGoMethodFunction)
+	env.AddFunction("togo", ToGoFunction)
 	out := ""
 	for _, f := range vT(env, vC20FreshPrograms[k], hole) {
 		r, err, p := vEval(env, f)
